@@ -244,7 +244,7 @@ var plans = map[string]*plan{
 		Thorough: []batchSpec{{Test: "TestC18", N: 16, Race: true, Timeout: 90 * m}, {Test: "TestC18", N: 4, Race: true, Timeout: 60 * m, Env: map[string]string{"VERIF_WORKLOAD": "w7"}, Tag: "w7"},
 			{Test: "TestC14Conc", N: 8, Race: true, Timeout: 60 * m}, {Test: "TestC13Conc", N: 4, Race: true, Timeout: 30 * m}, {Test: "TestC12Client", N: 4, Race: true, Timeout: 30 * m}},
 		EvalStats:      []string{"c18.runs", "c14.conc.runs", "c13.conc.histories"},
-		Floors:         map[string]int64{"c18.runs": 40, "c18.published": 10000, "c18.overlap.writes_during_target_teardown": 1, "c18.overlap.retain_during_subscribe_processing": 5, "c18.overlap.subscribe_processing_during_retain": 1, "c18.churned_connections": 1000, "classes": 15},
+		Floors:         map[string]int64{"c18.runs": 40, "c18.published": 10000, "c18.overlap.writes_during_target_teardown": 100, "c18.overlap.retain_during_subscribe_processing": 1, "c18.churned_connections": 1000, "classes": 15},
 		FloorsThorough: map[string]int64{"c18.runs": 400, "classes": 20},
 		Post:           func(r *result, wd string) { parseRaceLogs(r, wd) },
 		Assumptions:    []string{"only executed schedules are observed; the detector's bounded shadow history can miss races whose accesses are far apart", "hooks add no synchronisation in the -race build (plain norace counters, clock-derived delays, no event sink)"},
